@@ -6,6 +6,7 @@ package main
 
 import (
 	"fmt"
+	"github.com/miekg/dns"
 )
 
 const (
@@ -68,6 +69,14 @@ func judge(w window, lazy bool, spec msgSpec, optWant []uint32, r result) verdic
 
 	var v verdict
 	v.ExpectedHit = loadSure && t1 <= cacheExpLo && (t1 < msgExpLo || lazy)
+	if v.ExpectedHit && w.LoadLo == 0 && spec.Rcode != dns.RcodeSuccess {
+		// stored through Exec: a negative answer "lives at most" its limit - with records of
+		// its own it may legitimately be gone once their smallest TTL has run out, so a hit is
+		// the only correct outcome (for the vacuity guard) only before that
+		if m, ok := spec.minTTL(); ok && t1 >= w.StLo+int64(m)*sec {
+			v.ExpectedHit = false
+		}
+	}
 
 	if !r.Hit {
 		switch {
